@@ -1,6 +1,7 @@
 package main
 
 import (
+	"encoding/binary"
 	"fmt"
 	"net"
 	"net/netip"
@@ -31,7 +32,7 @@ func (l *nullListener) OnEvent(*types.Status) {
 	time.Sleep(l.delay)
 	atomic.AddInt64(&l.events, 1)
 }
-func (l *nullListener) OnError(error) bool    { atomic.AddInt64(&l.errors, 1); return true }
+func (l *nullListener) OnError(error) bool { atomic.AddInt64(&l.errors, 1); return true }
 
 func seg(h1, m1, h2, m2 int) types.Segment {
 	s, _ := types.HHmmFromString(fmt.Sprintf("%02d:%02d", h1, m1))
@@ -94,11 +95,21 @@ func streamConc(c *ctx) {
 			}
 			// one unconfigured controller reached by "broadcast" (unicast to its responder), which also answers discovery
 			bc := newUDPResponder("127.0.0.1", func(req []byte) []step {
+				if len(req) == 64 && req[1] == 0x94 && (req[4] != 0 || req[5] != 0 || req[6] != 0 || req[7] != 0) {
+					// get-device for one controller: that controller answers
+					reply := messages.GetDeviceResponse{SerialNumber: types.SerialNumber(binary.LittleEndian.Uint32(req[4:8])), IpAddress: net.IPv4(127, 0, 0, 1), SubnetMask: net.IPv4(255, 0, 0, 0),
+						Gateway: net.IPv4(127, 0, 0, 1), MacAddress: types.MacAddress{1, 2, 3, 4, 5, 6}, Version: 0x0892, Date: types.ToDate(2024, 1, 1)}
+					b, _ := codec.Marshal(reply)
+					return []step{{5 * time.Millisecond, b}}
+				}
 				if len(req) == 64 && req[1] == 0x94 {
 					reply := messages.GetDeviceResponse{SerialNumber: 4000001, IpAddress: net.IPv4(127, 0, 0, 1), SubnetMask: net.IPv4(255, 0, 0, 0),
 						Gateway: net.IPv4(127, 0, 0, 1), MacAddress: types.MacAddress{1, 2, 3, 4, 5, 6}, Version: 0x0892, Date: types.ToDate(2024, 1, 1)}
 					b, _ := codec.Marshal(reply)
-					return []step{{3 * time.Millisecond, b}, {20 * time.Millisecond, b}, {T / 2, b}}
+					// (the second answer comes from the controller that is configured without an address)
+					reply.SerialNumber = 4000003
+					b3, _ := codec.Marshal(reply)
+					return []step{{3 * time.Millisecond, b}, {20 * time.Millisecond, b3}, {T / 2, b}}
 				}
 				return echo(mkDelay(77))(req)
 			})
@@ -106,6 +117,8 @@ func streamConc(c *ctx) {
 			// ... and two more behind the same broadcast address: calls for different unconfigured controllers overlap on
 			// the broadcast path, each waiting for the reply that carries its own serial number
 			ctls = append(ctls, ctl{4000002, "broadcast", bc.addr(), func() {}}, ctl{4000003, "broadcast", bc.addr(), func() {}})
+			// (4000003 is in the configuration, without an address: still the broadcast path)
+			devices = append(devices, uhppote.Device{Name: "no-address", DeviceID: 4000003, Protocol: "udp"})
 			bap := netip.MustParseAddrPort(bc.addr())
 			lport := freePort()
 			u := uhppote.NewUHPPOTE(types.BindAddrFrom(netip.MustParseAddr("127.0.0.1"), uint16(bind)),
@@ -134,6 +147,7 @@ func streamConc(c *ctx) {
 							u.PutCard(ct.serial, sharedCard, sharedFormats...)
 							u.AddTask(ct.serial, sharedTask)
 							u.SetDoorPasscodes(ct.serial, 1, sharedCodes...)
+							u.GetDevice(ct.serial) // what a controller reports about itself is returned, not remembered
 						}
 						card := uint32(g*1000 + k + 1)
 						res, err := getCard(u, ct.serial, card)
